@@ -1,4 +1,5 @@
 import SqiProofs.CurveIsom
+import SqiProofs.LadderGen
 import SqiProofs.BasisAlg
 
 /-! # C08 — x-only Montgomery curve arithmetic implements the elliptic-curve group law
@@ -468,6 +469,97 @@ theorem DBL_order2 {a : F} (AC : EcCurve F) (hA : AC.A = a) (x : F) (h : (mont a
     (J : JacPoint F) (hJ : IsJac (Affine.Point.some x 0 h) J) : (DBL J AC).z = 0 ∧ (DBL J AC).x ≠ 0 :=
   DBL_order2_noncanonical AC hA x h J hJ
 
+/-! ## the loops themselves are generated from ec.c (tie T): the theorems transfer to `SqiGen.Ladder`
+
+`SqiGen.xMUL`, `SqiGen.xMULv2`, `SqiGen.ec_ladder3pt`, `SqiGen.xDBLMUL` are emitted by `tools/translate/ladders.py` from the
+C text on every run (loops as folds of generated bodies, digit arrays as `Nat`) and proved equal to the hand models
+(`SqiProofs/LadderGen.lean`), so an edit of a loop bound, swap condition or recoding step breaks a proof obligation. -/
+
+theorem xMUL_generated_correct {a : F} (h2 : (2 : F) ≠ 0) (BITS k : Nat) (curve : EcCurve F) (hA : curve.A = a * curve.C)
+    (hC : curve.C ≠ 0) (Pt : (mont a).Point) (P : EcPoint F) (hP : IsX Pt P.x P.z) (hx : P.x ≠ 0) (hz : P.z ≠ 0) :
+    IsX ((k % 2 ^ BITS) • Pt) (SqiGen.xMUL BITS P k curve).x (SqiGen.xMUL BITS P k curve).z := by
+  rw [SqiProofs.LadderGen.xMUL_eq]
+  exact xMUL_correct h2 BITS k curve hA hC Pt P hP hx hz
+
+theorem xMULv2_generated_correct {a : F} (h2 : (2 : F) ≠ 0) (kbits k : Nat) (A24 P : EcPoint F)
+    (hA : IsA24 a A24.x A24.z) (Pt : (mont a).Point) (hP : IsX Pt P.x P.z) (hx : P.x ≠ 0) (hz : P.z ≠ 0) :
+    IsX ((k % 2 ^ kbits) • Pt) (SqiGen.xMULv2 P k kbits A24).x (SqiGen.xMULv2 P k kbits A24).z := by
+  rw [SqiProofs.LadderGen.xMULv2_eq]
+  exact xMULv2_correct h2 kbits k A24 P hA Pt hP hx hz
+
+theorem ec_ladder3pt_generated_correct {a : F} (h2 : (2 : F) ≠ 0) (NWORDS_FIELD m : Nat) (curve : EcCurve F)
+    (hA : 4 * curve.A24.x = a + 2) (Pt Qt : (mont a).Point) (P Q PQ : EcPoint F)
+    (hP : IsX Pt P.x P.z) (hQ : IsX Qt Q.x Q.z) (hD : IsX (Pt - Qt) PQ.x PQ.z)
+    (hg : L3Good (bitsLSB (64 * NWORDS_FIELD) m) Qt Pt) :
+    IsX (Pt + (m % 2 ^ (64 * NWORDS_FIELD)) • Qt) (SqiGen.ec_ladder3pt NWORDS_FIELD m P Q PQ curve).x
+      (SqiGen.ec_ladder3pt NWORDS_FIELD m P Q PQ curve).z := by
+  rw [SqiProofs.LadderGen.ec_ladder3pt_eq]
+  exact ec_ladder3pt_correct h2 (64 * NWORDS_FIELD) m curve hA Pt Qt P Q PQ hP hQ hD hg
+
+/-- `xDBLMUL` as generated (`NWORDS_ORDER` words of 64 bits, `BITS = 64·NWORDS_ORDER`, scalars given as `NWORDS_ORDER`-word
+numbers): `x([k]P + [l]Q)` for `0 < k, l < 2^BITS`; the recoding loop (bound `i < BITS`, the `i == BITS-1` case, the
+swaps, `mp_sub`, `mp_shiftr`) is part of the generated text. -/
+theorem xDBLMUL_generated_correct {a : F} (h2 : (2 : F) ≠ 0) (NW BITS : Nat) (hW : 64 * NW = BITS) (hn : 0 < BITS)
+    (k l : Nat) (hk0 : 0 < k) (hk : k < 2 ^ BITS) (hl0 : 0 < l) (hl : l < 2 ^ BITS)
+    (curve : EcCurve F) (hA : curve.A = a * curve.C) (hC : curve.C ≠ 0)
+    (hflag : curve.is_A24_computed_and_normalized ≠ 0 → 4 * curve.A24.x = a + 2)
+    (Pt Qt : (mont a).Point) (P Q PQ : EcPoint F)
+    (hP : IsX Pt P.x P.z) (hQ : IsX Qt Q.x Q.z) (hD : IsX (Pt - Qt) PQ.x PQ.z)
+    (nP : XNonDeg Pt) (nQ : XNonDeg Qt) (nS : XNonDeg (Pt + Qt)) (nD : XNonDeg (Pt - Qt)) :
+    IsX (k • Pt + l • Qt) (SqiGen.xDBLMUL NW BITS P k Q l PQ curve).x (SqiGen.xDBLMUL NW BITS P k Q l PQ curve).z := by
+  rw [SqiProofs.LadderGen.xDBLMUL_eq NW BITS hW hn k l hk hl]
+  exact xDBLMUL_correct h2 BITS hn k l hk0 hk hl0 hl curve hA hC hflag Pt Qt P Q PQ hP hQ hD nP nQ nS nD
+
+theorem xDBLMUL_bounded_generated_correct {a : F} (h2 : (2 : F) ≠ 0) (NW BITS TPE : Nat) (hW : 64 * NW = BITS)
+    (hn : 0 < BITS) (k l f : Nat) (hk : k < 2 ^ BITS) (hl : l < 2 ^ BITS)
+    (curve : EcCurve F) (hA : curve.A = a * curve.C) (hC : curve.C ≠ 0)
+    (hflag : curve.is_A24_computed_and_normalized ≠ 0 → 4 * curve.A24.x = a + 2)
+    (hkb : oddify BITS k < 2 ^ (f + 2 + (BITS - TPE) + 1)) (hlb : oddify BITS l < 2 ^ (f + 2 + (BITS - TPE) + 1))
+    (Pt Qt : (mont a).Point) (P Q PQ : EcPoint F)
+    (hP : IsX Pt P.x P.z) (hQ : IsX Qt Q.x Q.z) (hD : IsX (Pt - Qt) PQ.x PQ.z)
+    (nP : XNonDeg Pt) (nQ : XNonDeg Qt) (nS : XNonDeg (Pt + Qt)) (nD : XNonDeg (Pt - Qt)) :
+    IsX (chainScalar BITS k • Pt + chainScalar BITS l • Qt)
+      (SqiGen.xDBLMUL_bounded NW BITS TPE P k Q l PQ curve f).x (SqiGen.xDBLMUL_bounded NW BITS TPE P k Q l PQ curve f).z := by
+  rw [SqiProofs.LadderGen.xDBLMUL_bounded_eq NW BITS TPE hW hn k l hk hl]
+  exact xDBLMUL_bounded_correct h2 BITS hn _ k l curve hA hC hflag hkb hlb Pt Qt P Q PQ hP hQ hD nP nQ nS nD
+
+theorem DBLMUL_generated_correct {a : F} (h2 : (2 : F) ≠ 0) (curve : EcCurve F) (hA : curve.A = a) (k l : Nat)
+    (P Q : (mont a).Point) (JP JQ : JacPoint F) (hP : IsJacC P JP) (hQ : IsJacC Q JQ) (hadd : AddGood P Q)
+    (hg : dblmulGood P Q 0 ((bitsMSB 64 k).zip (bitsMSB 64 l))) :
+    IsJacC ((k % 2 ^ 64) • P + (l % 2 ^ 64) • Q) (SqiGen.DBLMUL JP k JQ l curve) := by
+  rw [SqiProofs.LadderGen.DBLMUL_eq]
+  exact jacDBLMUL_correct h2 curve hA 64 k l P Q JP JQ hP hQ hadd hg
+
+theorem DBLMUL_generic_generated_correct {a : F} (h2 : (2 : F) ≠ 0) (curve : EcCurve F) (hA : curve.A = a)
+    (size k l : Nat) (P Q : (mont a).Point) (JP JQ : JacPoint F) (hP : IsJacC P JP) (hQ : IsJacC Q JQ)
+    (hadd : AddGood P Q) (hg : dblmulGood P Q 0 ((bitsMSB (64 * size) k).zip (bitsMSB (64 * size) l))) :
+    IsJacC ((k % 2 ^ (64 * size)) • P + (l % 2 ^ (64 * size)) • Q) (SqiGen.DBLMUL_generic JP k JQ l curve size) := by
+  rw [SqiProofs.LadderGen.DBLMUL_generic_eq]
+  exact jacDBLMUL_correct h2 curve hA (64 * size) k l P Q JP JQ hP hQ hadd hg
+
+theorem ec_dbl_iter_generated_correct {a : F} (h2 : (2 : F) ≠ 0) (res : EcPoint F) (n : Nat) (curve : EcCurve F)
+    (hA : curve.A = a * curve.C) (hC : curve.C ≠ 0)
+    (hflag : curve.is_A24_computed_and_normalized ≠ 0 → IsA24 a curve.A24.x curve.A24.z)
+    (Pt : (mont a).Point) (P : EcPoint F) (hP : IsX Pt P.x P.z) :
+    (0 < n → IsX (2 ^ n • Pt) (SqiGen.ec_dbl_iter res n curve P).1.x (SqiGen.ec_dbl_iter res n curve P).1.z) ∧
+    (n = 0 → (SqiGen.ec_dbl_iter res n curve P).1 = res) := by
+  rw [SqiProofs.LadderGen.ec_dbl_iter_eq]
+  have := ec_dbl_iter_correct h2 res (n : Int) curve hA hC hflag Pt P hP
+  refine ⟨fun hn => ?_, fun hn => this.2 (by omega)⟩
+  have := this.1 (by omega)
+  simpa using this
+
+/-- `TPL` (naive tripling `ADD(DBL(P), P)`): `[3]P` in canonical form, unless `P` or the pair `([2]P, P)` hits the order-2
+doubling exception. -/
+theorem TPL_correct {a : F} (h2 : (2 : F) ≠ 0) (AC : EcCurve F) (hA : AC.A = a) (Pt : (mont a).Point) (J : JacPoint F)
+    (hJ : IsJacC Pt J) (hd : DblGood Pt) (ha : AddGood (Pt + Pt) Pt) : IsJacC (3 • Pt) (TPL J AC) := by
+  have h2P := DBL_canonical h2 AC hA Pt J hJ hd
+  have h3 := (ADD_correct h2 AC hA (Pt + Pt) Pt (DBL J AC) J h2P hJ).2 ha
+  have e : (3 : ℕ) • Pt = Pt + Pt + Pt := by
+    rw [show (3 : ℕ) = 2 + 1 from rfl, add_nsmul, two_nsmul, one_nsmul]
+  rw [e]
+  simpa [TPL] using h3
+
 /-! ## non-vacuity: a concrete curve and point satisfying the hypotheses (over ℚ) -/
 
 /-- `P₀ = (2, 4)` on `y² = x³ + (3/2)x² + x` -/
@@ -498,6 +590,38 @@ example : L3Good [false] (0 : (mont (3 / 2 : ℚ)).Point) (Affine.Point.some 2 4
 example : IsX (Affine.Point.some 2 4 P0_nonsingular + Affine.Point.some 2 4 P0_nonsingular)
     (xDBL (⟨6, 3⟩ : EcPoint ℚ) ⟨3, 2⟩).x (xDBL (⟨6, 3⟩ : EcPoint ℚ) ⟨3, 2⟩).z :=
   xDBL_correct (by norm_num) 3 2 (by norm_num) (by norm_num) _ ⟨6, 3⟩ ⟨by norm_num, by norm_num⟩
+
+/-- `Q₀ = 2·P₀ = (9/64, 213/512)` on the same curve -/
+theorem Q0_nonsingular : (mont (3 / 2 : ℚ)).Nonsingular (9 / 64) (213 / 512) := by
+  rw [Affine.nonsingular_iff, Affine.equation_iff]
+  simp only [mont]
+  norm_num
+
+theorem xNonDeg_some {a x y : F} (h : (mont a).Nonsingular x y) (hx : x ≠ 0) : XNonDeg (Affine.Point.some x y h) :=
+  fun _ _ hXZ => ⟨by rw [hXZ.2]; exact mul_ne_zero hx hXZ.1, hXZ.1⟩
+
+/-- non-vacuity of the hypotheses of `xDBLMUL_correct` / `xDBLMUL_generated_correct`: `P = P₀`, `Q = Q₀`: all four of
+`P, Q, P + Q, P - Q` have `x ∉ {0, ∞}` -/
+example : XNonDeg (Affine.Point.some 2 4 P0_nonsingular) ∧ XNonDeg (Affine.Point.some (9 / 64) (213 / 512) Q0_nonsingular) ∧
+    XNonDeg (Affine.Point.some 2 4 P0_nonsingular + Affine.Point.some (9 / 64) (213 / 512) Q0_nonsingular) ∧
+    XNonDeg (Affine.Point.some 2 4 P0_nonsingular - Affine.Point.some (9 / 64) (213 / 512) Q0_nonsingular) := by
+  refine ⟨xNonDeg_some _ (by norm_num), xNonDeg_some _ (by norm_num), ?_, ?_⟩
+  · obtain ⟨x3, y3, h3, hs, hx⟩ := add_some_ne P0_nonsingular Q0_nonsingular (by norm_num)
+    rw [hs]
+    apply xNonDeg_some
+    rw [hx]; norm_num
+  · have hn : (mont (3 / 2 : ℚ)).Nonsingular (9 / 64) (-(213 / 512)) := by
+      have := (Affine.nonsingular_neg (W' := mont (3 / 2 : ℚ)) (9 / 64) (213 / 512)).mpr Q0_nonsingular
+      rwa [mont_negY] at this
+    have e : Affine.Point.some 2 4 P0_nonsingular - Affine.Point.some (9 / 64) (213 / 512) Q0_nonsingular
+        = Affine.Point.some 2 4 P0_nonsingular + Affine.Point.some (9 / 64) (-(213 / 512)) hn := by
+      rw [sub_eq_add_neg, Affine.Point.neg_some]
+      congr 1
+      simp only [mont_negY]
+    obtain ⟨x3, y3, h3, hs, hx⟩ := add_some_ne P0_nonsingular hn (by norm_num)
+    rw [e, hs]
+    apply xNonDeg_some
+    rw [hx]; norm_num
 
 /-- the full statement of `xADD` without the hypothesis on the difference is false: `P = Q = P₀`, difference `∞`
 represented by `(1 : 0)`: the formula returns `X = 0` although `2P₀ ≠ (0,0)`-class would need `X = x(2P₀)·Z`. -/
